@@ -22,7 +22,8 @@ class Disk:
     def put(self, name, value, t):
         if self.frozen:
             return
-        t = max(t, self.last + self.tickv)
+        # (instants sit on the microsecond grid: datetimes and file times render them without rounding ambiguity)
+        t = round(max(t, self.last + self.tickv), 6)
         self.last = t
         self.data[name] = (value, t)
         self.writes += 1
@@ -123,7 +124,7 @@ class FileDisk(Disk):
         return os.path.join(self.scratch, name + ".pkl")
 
     def tick(self, t):
-        t = max(t, self.last + self.tickv)
+        t = round(max(t, self.last + self.tickv), 6)
         self.last = t
         return t
 
